@@ -88,6 +88,8 @@ if _b is not None and hasattr(_b, "prove"):
         _side({"ev": "prove", "trace": _dump()})
         return _real_prove()
     _b.prove = _prove
+def __prove__():
+    _b.prove()          # an explicit prove() in the middle of the script (plans with a checkpoint)
 if "autoprove" in _cfg:
     _rt.autoprove = _cfg["autoprove"]
 if _cfg.get("operation") is not None:
